@@ -268,3 +268,8 @@ class TS_mark_running_job_as_stopped:
             and s.self.num_trials_running == 0
             and s.self.num_trials_finished == n_with(t0, lambda v: v == "Completed" or v == "Failed" or v == "Stopped" or v == "Stopping" or v == "InProgress"),
         }
+
+
+# at the end (mutual import with contracts.c01): trials started by a batch must stay the tuner's business, also when the
+# searcher runs out in the middle of the batch -- otherwise the run ends while they are still running
+from contracts.c01 import Tuner_schedule_new_tasks  # noqa: F401,E402
